@@ -4,7 +4,7 @@ From Coq Require Import List Arith Bool Lia.
 From PG Require Import Base.ListSet C20.Model C20.Spec C20.Refuted.
 Import ListNotations.
 
-Definition ex_hist : list op := h_reuse ++ [On 0 (LAddF [2]); Copy 0; On 1 (LAddS 1 2 [0])].
+Definition ex_hist : list op := h_reuse ++ [On 0 (LAddF [2] []); Copy 0; On 1 (LAddS 1 2 [0])].
 
 (* two live objects with non-empty registries, the copy has one S-node more *)
 Example ex_world :
@@ -13,10 +13,18 @@ Example ex_world :
 Proof. vm_compute. reflexivity. Qed.
 
 (* fresh_names: the add succeeds (status 0) in a state where ('F',1), ('F',2) exist and ('F',0) was removed *)
-Example ex_fresh_hyp : snd (step good (run good ex_hist) (On 0 (LAddF [0; 1]))) = 0.
+Example ex_fresh_hyp : snd (step good (run good ex_hist) (On 0 (LAddF [0; 1] []))) = 0.
 Proof. vm_compute. reflexivity. Qed.
 Example ex_fresh_s_hyp : snd (step good (run good ex_hist) (On 1 (LAddS 2 3 [1]))) = 0.
 Proof. vm_compute. reflexivity. Qed.
+
+(* augmented nodes as intervention targets (add_f_node(set(G.nodes)) style): accepted, registered as given *)
+Example ex_aug_targets :
+  let w := fst (step good (run good ex_hist) (On 1 (LAddF [0] [FN 2; SN 0]))) in
+  snd (step good (run good ex_hist) (On 1 (LAddF [0] [FN 2; SN 0]))) = 0 /\
+  option_map (fun g => (lookup 3 (gFa g), achildren (FN 3) (aaedges g))) (nth_error (objs w) 1)
+    = Some (Some [FN 2; SN 0], [FN 2; SN 0]).
+Proof. vm_compute. split; reflexivity. Qed.
 
 (* created_stable: a registered entry, and an operation that is not its removal *)
 Example ex_stable_hyp :
